@@ -1,15 +1,118 @@
-(* C29 — Packet-line framing is exact and never panics.  Statements only. *)
+(* C29 — Packet-line framing is exact and never panics.
+   Only statements here; every proof is [exact <lemma of Proofs*.v>].
+   Model: Model.v (gix-packetline, blocking-io, after the two fix commits of ../findings.txt).
+   [hexnum p] is the number written by the hex digits p (either case); [len] is the length as N;
+   [Panic] is any Rust panic (slice bounds, expect, debug assertion), [OutOfFuel] a non-terminating loop. *)
 From GixV.Base Require Import Bytes BytesFacts Outcome.
-From GixV.C29 Require Import Tables Model Proofs.
+From GixV.C29 Require Import Tables Model Proofs ProofsCodec ProofsReader.
 Local Open Scope N_scope.
 
-(* hex_prefix of ANY four bytes is: the value of the four hex digits (either case) read as a number,
-   with 0/1/2 = flush/delimiter/response-end, 3 and 4 errors, anything else "v - 4 more bytes wanted";
-   non-hex input is an error.  No four bytes make it panic. *)
+(* ---- length prefixes --------------------------------------------------------------------------- *)
+
+(* hex_prefix of ANY four bytes is: the value of the four hex digits read as a number, with 0/1/2 =
+   flush/delimiter/response-end, 3 and 4 errors, anything else "v - 4 more bytes wanted"; non-hex input
+   is an error. *)
 Theorem hex_prefix_is_hex_number : forall p, length p = 4%nat -> hex_prefix p = hex_prefix_spec p.
 Proof. exact L_hex_prefix_spec. Qed.
 
+(* no four bytes make it panic (neither debug assertion can fire, the u16 subtraction cannot wrap) *)
 Theorem hex_prefix_total : forall p, length p = 4%nat ->
   hex_prefix p <> Panic /\ hex_prefix p <> OutOfFuel /\
   (forall n, hex_prefix p = Ok (Wanted n) -> 1 <= n <= 65531).
 Proof. exact L_hex_prefix_total. Qed.
+
+(* ---- what is written decodes back to the same line --------------------------------------------- *)
+
+(* every line the encoder accepts (any prefix/payload/suffix: data, text, ERR, side-band) is written as
+   4 hex digits + content, and decodes — alone or followed by arbitrary further bytes — to exactly that
+   content, consuming exactly the bytes written *)
+Theorem written_line_decodes_back : forall p d s rest, d <> [] -> len p + len d + len s <= MAX_DATA_LEN ->
+  exists out, prefixed_and_suffixed p d s = Ok (len out, out) /\
+    len out = len p + len d + len s + 4 /\
+    streaming (out ++ rest) = Ok (Complete (Data (p ++ d ++ s)) (len out)) /\
+    all_at_once out = Ok (Data (p ++ d ++ s)).
+Proof. exact L_line_roundtrip. Qed.
+
+(* the encoder refuses exactly empty payloads and contents above 65516 bytes, and never panics *)
+Theorem encoder_refuses_exactly : forall p d s,
+  (d = [] \/ MAX_DATA_LEN < len p + len d + len s) <-> exists e, prefixed_and_suffixed p d s = Err e.
+Proof. exact L_encode_refuses. Qed.
+Theorem encoder_total : forall p d s,
+  prefixed_and_suffixed p d s <> Panic /\ prefixed_and_suffixed p d s <> OutOfFuel.
+Proof. exact L_encode_total. Qed.
+
+(* the views used to read the content back: text loses exactly the newline that was appended, an ERR
+   line gives back the message, a side-band line gives back channel and payload *)
+Theorem text_view_inverts_text_to_write : forall t, as_text (Data ([] ++ t ++ [x0a])) = Some t.
+Proof. intros t. cbn [app as_text as_slice option_map]. rewrite text_from_nl. reflexivity. Qed.
+Theorem error_view_inverts_error_to_write : forall m, check_error (Data (ERR_PREFIX ++ m ++ [])) = Some m.
+Proof. intros m. rewrite app_nil_r. apply check_error_err. Qed.
+Theorem band_view_inverts_band_to_write : forall d,
+  decode_band (Data (N2b CHANNEL_DATA :: d)) = Ok (BData d) /\
+  decode_band (Data (N2b CHANNEL_PROGRESS :: d)) = Ok (BProgress d) /\
+  decode_band (Data (N2b CHANNEL_ERROR :: d)) = Ok (BError d).
+Proof. exact decode_band_123. Qed.
+
+(* flush, delimiter and response-end decode to themselves whatever follows *)
+Theorem control_lines_decode_back : forall rest,
+  streaming (FLUSH_LINE ++ rest) = Ok (Complete Flush 4) /\
+  streaming (DELIMITER_LINE ++ rest) = Ok (Complete Delimiter 4) /\
+  streaming (RESPONSE_END_LINE ++ rest) = Ok (Complete ResponseEnd 4).
+Proof. exact L_control_roundtrip. Qed.
+
+(* ---- the decoder on arbitrary bytes ------------------------------------------------------------- *)
+
+(* decode::streaming is the naive reader of the format, for ALL byte strings; in particular every
+   length above 65520 is the error TooLong *)
+Theorem streaming_is_naive_reader : forall data, streaming data = streaming_spec data.
+Proof. exact L_streaming_spec. Qed.
+Theorem decoder_total : forall data,
+  streaming data <> Panic /\ streaming data <> OutOfFuel /\
+  all_at_once data <> Panic /\ all_at_once data <> OutOfFuel.
+Proof. exact L_streaming_total. Qed.
+
+(* the representation of the reader's 65520-byte buffers by their written prefix is sound: decoding the
+   real buffer, whatever its stale tail, is decoding the modelled one *)
+Theorem stale_buffer_tail_is_never_read : forall hex d stale n,
+  length hex = 4%nat -> hex_prefix hex = Ok (Wanted n) -> len d = n -> n + 4 <= MAX_LINE_LEN ->
+  streaming ((hex ++ d) ++ stale) = streaming_gen (len ((hex ++ d) ++ stale)) (hex ++ d).
+Proof. exact streaming_gen_pad. Qed.
+
+(* ---- the stream reader --------------------------------------------------------------------------- *)
+
+(* StreamingPeekableIter: for ANY byte stream delivered in ANY chunks (empty reads included), any
+   delimiters, either ERR mode and any interleaving of read_line / peek_line / reset / stopped_at /
+   fail_on_err_lines, every call returns — no slice bound, no `expect`, no assertion fails *)
+Theorem reader_never_panics : forall chunks ds f ops,
+  exists xs it', run_ops ops (set_fail_on_err (iter_new chunks ds) f) = Ok (xs, it').
+Proof. exact L_reader_never_panics. Qed.
+
+(* ... and what the calls return depends only on the bytes, not on how the reader splits them *)
+Theorem chunking_is_irrelevant : forall c1 c2 ds f ops,
+  concat c1 = concat c2 -> nonempty c1 -> nonempty c2 ->
+  exists xs it1 it2,
+    run_ops ops (set_fail_on_err (iter_new c1 ds) f) = Ok (xs, it1) /\
+    run_ops ops (set_fail_on_err (iter_new c2 ds) f) = Ok (xs, it2).
+Proof. exact L_chunking_irrelevant. Qed.
+
+(* ---- non-vacuity ------------------------------------------------------------------------------- *)
+
+(* the former panic: prefix fff1 now is an error, through the reader, one byte at a time *)
+Example oversized_prefix_is_an_error :
+  exists it, run_ops [OpRead] (iter_new [[x66]; [x66]; [x66]; [x31]; [x61]] [Flush])
+             = Ok ([ORes (Some (RDecode (TooLong 65521)))], it).
+Proof. eexists. vm_compute. reflexivity. Qed.
+
+(* a data line and a flush, chunked two ways, peeked and read *)
+Example reader_example :
+  exists it1 it2,
+    run_ops [OpPeek; OpRead; OpRead; OpStopped] (iter_new [bs "0006"; bs "hi00"; bs "00"] [Flush])
+      = Ok ([ORes (Some (RLine (Data (bs "hi")))); ORes (Some (RLine (Data (bs "hi")))); ORes None; OStop (Some Flush)], it1) /\
+    run_ops [OpPeek; OpRead; OpRead; OpStopped] (iter_new [bs "0006hi0000"] [Flush])
+      = Ok ([ORes (Some (RLine (Data (bs "hi")))); ORes (Some (RLine (Data (bs "hi")))); ORes None; OStop (Some Flush)], it2).
+Proof. do 2 eexists. split; vm_compute; reflexivity. Qed.
+
+Example roundtrip_example :
+  text_to_write (bs "want") = Ok (9, bs "0009want" ++ [x0a]) /\
+  band_to_write CHANNEL_PROGRESS (bs "50%") = Ok (8, bs "0008" ++ [x02] ++ bs "50%").
+Proof. split; vm_compute; reflexivity. Qed.
